@@ -32,8 +32,13 @@ def bounded(tier, seed, stop_first=False):
 
 
 def replay_search(obligation, qual, seed, tier):
-    r = bounded('quick', seed, stop_first=True)
+    """a concrete failing input for a failed obligation: the violation of the bounded run whose check name is the
+    obligation itself, else the first violation found"""
+    r = bounded('quick', seed)
     v = r.get('violations') or []
+    for x in v:
+        if x.get('check') == obligation:
+            return x
     return v[0] if v else None
 
 
